@@ -40,10 +40,10 @@ EXPECTED = ("accepted throw: target has exactly one handle step(exc), no wake-up
             "resumes after delivery; no loop exception-handler call; all workers finish")
 
 ENV_W = [("step", 38), ("create", 7), ("newfut", 2), ("setres", 7), ("setexc", 3), ("cancelfut", 3),
-         ("addcb", 1), ("cancel", 9), ("cscancel", 4), ("cscb", 1), ("throw", 16), ("pause", 2)]
+         ("addcb", 1), ("cancel", 9), ("cscancel", 4), ("cscb", 1), ("throw", 16), ("nocancel", 3), ("pause", 2)]
 OP_W = [("s", 18), ("w", 24), ("y", 2), ("bad", 1), ("i", 20), ("a", 26), ("ret", 1), ("raise", 1)]
 INNER_W = [("create", 3), ("newfut", 1), ("setres", 7), ("setexc", 2), ("cancelfut", 3),
-           ("cancel", 10), ("cscancel", 3), ("throw", 16), ("obs", 3)]
+           ("cancel", 10), ("cscancel", 3), ("throw", 16), ("nocancel", 2), ("obs", 3)]
 
 
 def gen_case(rng):
@@ -58,6 +58,7 @@ def gen_case(rng):
     for a in case["script"]:
         if a[0] == "create" and rng.random() < 0.7:
             a[1] = "p"
+    case.pop("no_throw_on_blocked_cancel_pending", None)
     return case
 
 
@@ -71,8 +72,10 @@ def gen_rich_prog(rng, cd_only, depth=0):
             prog.append(["s"])
         elif r < 0.27:
             prog.append(["w", rng.randrange(4)])
-        elif r < 0.35:
+        elif r < 0.31:
             prog.append(["wsh", rng.randrange(4)])
+        elif r < 0.35:
+            prog.append(["gat", [rng.randrange(4), rng.randrange(4)], int(rng.random() < 0.4)])
         elif r < 0.47:
             prog.append(["ev", rng.randrange(2)])
         elif r < 0.57:
@@ -118,38 +121,8 @@ def gen_rich_case(rng):
 
 
 def explore_rich(ctx, cases, label="oracle-only: "):
-    provs = ctx.extra.setdefault("_provs", {})
-    for case in cases:
-        try:
-            w = K.run_case(case, trace=False)
-        except K.HarnessBug as e:
-            raise core.InfraError(f"harness bug on case {json.dumps(case)[:400]}: {e!r}")
-        ctx.case(json.dumps(case, sort_keys=True), sorted(w.tags - c09.TRIVIAL_TAGS))
-        seen = set()
-        for p in c09.my_problems(w, C15_KINDS):
-            prov = c09.prov_key(p["kind"])
-            if prov in seen:
-                continue
-            seen.add(prov)
-            if prov in provs:
-                ctx.violation(provs[prov], "", None)
-                continue
-
-            def pred(c, prov=prov):
-                try:
-                    w2 = K.run_case(dict(c, rich=True), trace=False)
-                except (K.HarnessBug, core.InfraError):
-                    return False
-                return any(c09.prov_key(q["kind"]) == prov for q in c09.my_problems(w2, C15_KINDS))
-            small = dict(c09.shrink_case(case, pred), rich=True)
-            try:
-                tags = K.run_case(small, trace=False).tags
-            except (K.HarnessBug, core.InfraError):
-                tags = ()
-            key = c09.final_key(prov, small, tags)
-            provs[prov] = key
-            ctx.violation(key, f"{label}{p['kind']}", small, expected=EXPECTED, observed=p["detail"],
-                          theorem="Asynkit.C15.throw_exactly_once / interrupt_runs_next")
+    return c09.explore_untraced(ctx, cases, kinds=C15_KINDS, label=label, expected=EXPECTED,
+                                theorem="Asynkit.C15.throw_exactly_once / interrupt_runs_next")
 
 
 def explore(ctx, cases, label=""):
